@@ -17,7 +17,8 @@ EXPLANATION = ("calcMobilizerReactionForces, calcMobilizerReactionForcesUsingFre
                "origin (reactions applied at the M frame origins); the reaction on the parent at F (and at the parent origin) is minus the "
                "reaction on the child shifted from M; the at-origin form is the shifted at-M form; both calculation methods agree.")
 BOUNDS = ("tree catalogue (spec/catalogue.py) incl. Weld, plus three 3-body chains with a massless intermediate body; all built-in mobilizers "
-          "forward/reversed, quaternion/Euler; u, f, F, prescribed udot free; k free coordinates at a time (1 quick / 2 thorough), other "
+          "forward/reversed, quaternion/Euler; u, f, F, prescribed udot free; k free coordinates at a time (1 quick / 2 thorough; quick tier: one "
+          "choice of free coordinate per base point plus the all-coordinates-pinned set where forward dynamics is involved, two choices in the all-prescribed mode; quick tier, multi-body trees containing Free/FreeLine/Bushing/CantileverFreeBeam/Ellipsoid with forward dynamics: coordinates pinned only), other "
           "coordinates and mass/frame parameters pinned at exact rational base points (2 quick / 6 thorough); fallback to linear inputs only "
           "when the encoder's term limit is exceeded; hinge-inertia inverses assumed to exist (division side conditions); LU pivoting "
           "path of 6-dof hinge matrices fixed by the path condition")
@@ -32,21 +33,32 @@ def instances(tier, seed):
     out = []
     for i in cat.tree_instances(tier, seed, "C14"):
         nbodies = len(i["args"][0].split(","))
-        out.append(dict(name=i["name"], args=i["args"] + ["0", "0"]))
-        out.append(dict(name=i["name"] + "|prescribed", args=i["args"] + ["1", "0"], light=True))
+        out.append(dict(name=i["name"], args=i["args"] + ["0", "0"], mode=0))
+        out.append(dict(name=i["name"] + "|prescribed", args=i["args"] + ["1", "0"], mode=1))
         if nbodies > 1:
-            out.append(dict(name=i["name"] + "|base-prescribed", args=i["args"] + ["2", "0"], light=True))
+            out.append(dict(name=i["name"] + "|base-prescribed", args=i["args"] + ["2", "0"], mode=2))
     for n, spec, ml in MASSLESS:
-        out.append(dict(name=n, args=[spec, "0", "0", str(ml)]))
-        out.append(dict(name=n + "|base-prescribed", args=[spec, "0", "2", str(ml)], light=True))
+        out.append(dict(name=n, args=[spec, "0", "0", str(ml)], mode=0))
+        out.append(dict(name=n + "|base-prescribed", args=[spec, "0", "2", str(ml)], mode=2))
     return out
+
+
+HEAVY = ("Free", "FreeLine", "Bushing", "CantileverFreeBeam", "Ellipsoid")   # LU-inverted 5/6-dof hinge matrices, non-trig use of angles
 
 
 def free_sets(inst, tr, tier, rng):
     fs = list(cat.coordinate_free_sets(inst, tr, tier, rng, always=("u", "f_", "F", "a_")))
-    if inst.get("light") and tier == "quick":
-        return fs[:2]
-    return fs
+    if tier != "quick":
+        return fs
+    if inst.get("mode") == 1:
+        return fs[:2]           # no hinge-matrix inverses: cheap
+    # quick tier, forward dynamics involved: one free-coordinate set per base point + the set with every coordinate pinned;
+    # multi-body trees containing a HEAVY mobilizer: coordinates pinned only (their polynomials carry 500-digit coefficients)
+    lin = [n for n in fs[0] if not is_coord(n)]
+    mobs = [t.split(":")[0] for t in inst["args"][0].split(",")]
+    if len(mobs) > 1 and any(m in HEAVY for m in mobs):
+        return [lin]
+    return fs[:1] + ([lin] if lin not in fs[:1] else [])
 
 
 def obligations(enc, inst, tr):
